@@ -88,7 +88,7 @@ CHECKS['C03'] = dict(
    technique='Coq proof (refinement of the receiver machine to a three-counter abstract consumer; contract lemmas over the glue and sender machines) + differential correspondence + pipeline-mode exploration against a functional reference', ref='§5, §6 C03')
 CHECKS['C04'] = dict(
    text='Theorems: a publish un-requests every client it is sent to, the gate opens only when every tracked synchronized client has asked, clients leave the wait set only by CLOSE/timeout, a receiver '
-        'issues requests only from recv(); machines compared with the real classes; stalled-consumer pipelines of real filters measured in pipeline mode (bounded, flat in run length).',
+        'issues requests only from recv(); from any point of any run the publishes that still include a consumer are at most one plus its requests already on the wire (C04_stall_bound); machines compared with the real classes; stalled-consumer pipelines of real filters measured in pipeline mode (bounded, flat in run length).',
    note=PROTO_NOTE + ' The schedule-independent credit bound over the network fragment is not proved (partial).',
    technique='Coq proof (local flow-control lemmas) + differential correspondence + pipeline-mode exploration', ref='§5, §6 C04')
 CHECKS['C06'] = dict(
